@@ -63,6 +63,6 @@ Q("shared-module-constant", "bfgsmats.py",
 M("nondet-random-restart", "main.py",
   "import copy\nimport logging\n", "import copy\nimport logging\nimport random\n", ["NONDET"], canary=True)
 M("nondet-np-random", "linesearch.py",
-  "        steplength_0 = 1.0\n", "        steplength_0 = 1.0 + 0.0 * np.random.rand()\n", ["NONDET"])
+  "        steplength_0 = min(1.0, max_steplength)\n", "        steplength_0 = min(1.0, max_steplength) + 0.0 * np.random.rand()\n", ["NONDET"])
 M("nondet-id", "scalar_function.py",
   "        self.n = self.x.size\n", "        self.n = self.x.size\n        self._key = id(x0)\n", ["NONDET"])
